@@ -29,6 +29,7 @@ CHECKS = {
  'C18': ('other', 'Footprint lemma, not schedule exploration: static taint analysis over the SSA shows no write to memory reachable from a package-level variable outside init, and symbolic runs of every entry point raise no global-write event; race freedom for calls sharing read-only inputs then follows from DRF-SC (cited). A reported breach is confirmed with a goroutine battery under -race before it is printed.', '6.18'),
  'C19': ('model_checking', 'With a Buffer warmed by the same call on the same document (and optionally used on another, possibly failing, input in between), destination capacity >= input length and a non-allocating handler, no success path of the listed functions reaches an allocation site (sites per the compiler escape analysis + append growth + map/fmt), for every input <= N and escape/nesting/long-number templates; the float conversion closure contains no allocation site (SSA scan).', '6.19'),
  'C17': ('model_checking', 'StdLibCompatibleString / StdLibCompatibleStringBytes on every byte string <= N (every 1-4 byte sequence class) equal the RFC 3629 sanitiser; idempotent; destination prefix kept.', '6.17'),
+ 'C20': ('model_checking', 'Marginal-cost obligations with symbolic size hints: two documents that differ by one extra member / nesting level / escape are decoded from the same arbitrary reader state (six free size hints on the reader and a pooled child); allocated bytes plus the potential left in the hints may grow by at most 1536 B per added input byte + 4096 B. Allocation sizes come from a stated cost model over the SSA (make/append/map/conversion); violations are replayed natively with runtime.MemStats. Known finding: scratch growth to the unread remainder (not repaired).', '6.20'),
 }
 
 NA = {
@@ -72,7 +73,7 @@ def main():
                      'kind_free_text': 'symbolic executor for go/ssa exported by engine/ssaexport from the current /repo tree; z3 (BV + integer encoding) decides branch feasibility, assertions and runtime checks; native replay of models'}],
         'checks': checks,
         'not_applicable': na,
-        'notes': 'fix: commits in /repo: 01b361b, 18ed757 (both C10, see known_findings.txt).',
+        'notes': 'fix: commits in /repo: 01b361b, 18ed757 (C10), 9f2a736 (C20); see known_findings.txt.',
     }
     json.dump(m, open('/verif/MANIFEST.json', 'w'), indent=1)
     print('checks', len(checks), 'not_applicable', len(na))
